@@ -25,7 +25,7 @@ func init() {
 			{Name: "undefined context variable no longer recorded", File: "v2/pkg/engine/resolve/inputtemplate.go", Rule: "C15-R2", Key: "renderSegments",
 				Old: "\t\t\t\tif undefined {\n\t\t\t\t\t*undefinedVariables = append(*undefinedVariables, segment.VariableSourcePath[0])\n\t\t\t\t}\n", New: "\t\t\t\t_ = undefined\n"},
 			{Name: "object literals no longer converted to JSON", File: astValueGo, Rule: "C15-R3", Key: "writeJSONValue",
-				Old: "\tcase ValueKindObject:\n\t\tbuf.WriteByte('{')", New: "\tcase ValueKindObject - 100:\n\t\tbuf.WriteByte('{')"},
+				Old: "\tcase ValueKindObject:\n\t\tbuf.WriteByte(literal.LBRACE_BYTE)", New: "\tcase ValueKindObject - 100:\n\t\tbuf.WriteByte(literal.LBRACE_BYTE)"},
 		},
 	}
 }
